@@ -232,7 +232,7 @@ class Run:
           ('act', kind, arg) for side actions, ('guard', name, SIG, fired)
   """
 
-  def __init__(self, spec, spied=False, budget=None, fault=None, marks=None, foreign_deco=False):
+  def __init__(self, spec, spied=False, budget=None, fault=None, marks=None, foreign_deco=False, spied_mask=None):
     self.spec = spec
     self.foreign_deco = foreign_deco
     self.spied = spied
@@ -249,10 +249,27 @@ class Run:
     self.fns = [None] * spec['n']
     for i in range(spec['n']):
       self.raw[i] = self._mk(i)
-      self.fns[i] = spy_on(self.raw[i]) if spied else (foreign_decorator(self.raw[i]) if foreign_deco else self.raw[i])
+      # foreign_deco: False / True ('wraps': a user's decorator on an un-spied handler) / 'spy-over-wraps' (spy_on stacked on
+      # the user's decorator) / 'wraps-twice' (two user decorators stacked)
+      if foreign_deco == 'spy-over-wraps':
+        self.fns[i] = spy_on(foreign_decorator(self.raw[i]))
+      elif foreign_deco == 'wraps-twice':
+        self.fns[i] = foreign_decorator(foreign_decorator(self.raw[i]))
+      elif spied_mask is not None:
+        # MIXED decoration: some states of the chart carry spy_on, the others are plain functions
+        self.fns[i] = spy_on(self.raw[i]) if spied_mask[i] else self.raw[i]
+      else:
+        self.fns[i] = spy_on(self.raw[i]) if spied else (foreign_decorator(self.raw[i]) if foreign_deco else self.raw[i])
+    self.stacked = foreign_deco in ('spy-over-wraps', 'wraps-twice')
+    if foreign_deco == 'spy-over-wraps':
+      self.spied = True
 
   def is_handler_of(self, fn, i):
-    """fn is state i's handler (the state function or a decorated form of it)"""
+    """fn is state i's handler: the state function or the function it decorates"""
+    if self.stacked:
+      # two decorators: the state function is the outer wrapper and 'the function it decorates' is the inner wrapper - the raw
+      # function at the bottom of the stack is neither
+      return fn is self.fns[i] or fn is self.fns[i].__wrapped__
     return fn is self.raw[i] or fn is self.fns[i] or getattr(fn, '__wrapped__', None) is self.raw[i]
 
   def tick(self):
